@@ -41,8 +41,10 @@ inductive Prog where
   /-- call element `n`; the continuation sees the value or the (catchable) failure -/
   | call  : Node → (Res → Prog) → Prog
   /-- read reference `r`; `byAttr` = through an attribute path (`Space.get_attr`, recorded on
-  the executor's `refstack`), otherwise by global name (not recorded) -/
-  | read  : (byAttr : Bool) → RefId → (Val → Prog) → Prog
+  the executor's `refstack`), otherwise by global name (not recorded).  The continuation
+  receives `none` when no reference of that name exists (`NameError` / `AttributeError`,
+  which the formula may catch) -/
+  | read  : (byAttr : Bool) → RefId → (Option Val → Prog) → Prog
 
 structure Env where
   /-- formula of a cells with its parameters bound to the key -/
@@ -50,9 +52,13 @@ structure Env where
   cached    : CellId → Bool
   /-- `allow_none` resolved cells → space → model -/
   allowNone : CellId → Bool
-  refs      : RefId → Val
+  /-- current value of each reference; `none` = no such reference (deleted / not yet created) -/
+  refs      : RefId → Option Val
   /-- `CallStack.maxdepth` -/
   maxdepth  : Nat
+  /-- the cells whose space's namespace contains the reference (the cells that can read it by
+  global name): those `BaseNamespaceReferrer`s are notified when the reference changes -/
+  observers : RefId → List CellId := fun _ => []
 
 /-- `Impl.get_property("allow_none")` (modelx/core/base.py): the nearest setting that is not
 `None`, looked up cells → space → model; the model always has one (`ModelImpl.__init__` sets
